@@ -4,6 +4,10 @@
 # writes "caught_by" (current) into meta.json, keeping the first result as "caught_by_when_first_tried".
 cd /verif
 NAMES=${@:-$(ls seeded)}
+# the checks run from a snapshot of the committed /verif (edits in progress do not leak into the result)
+SNAP=/tmp/verif-snap-matrix-$$
+rm -rf $SNAP; mkdir -p $SNAP; git -C /verif archive HEAD | tar -x -C $SNAP
+trap 'rm -rf $SNAP' EXIT
 for NAME in $NAMES; do
   OWN=${NAME%%-*}
   PREV=$(python3 -c "import json;m=json.load(open('seeded/$NAME/meta.json'));print(' '.join(m.get('caught_by',[])))")
@@ -16,7 +20,7 @@ for NAME in $NAMES; do
   fi
   CAUGHT=""
   for c in $CHECKS; do
-    VERIF_REPO=$WT VERIF_EVIDENCE_DIR=/tmp/mx-ev-$NAME ./check $c > /tmp/mx-$NAME-$c.log 2>&1; RC=$?
+    (cd $SNAP && VERIF_REPO=$WT VERIF_EVIDENCE_DIR=/tmp/mx-ev-$NAME ./check $c) > /tmp/mx-$NAME-$c.log 2>&1; RC=$?
     if [ $RC -eq 1 ]; then CAUGHT="$CAUGHT $c"; fi
     if [ $RC -ge 2 ]; then echo "$NAME: check $c exit $RC"; fi
   done
